@@ -51,13 +51,21 @@ func runC14(c *Ctx) {
 		type want struct {
 			key, role, desc string
 			tmpl            string
+			tmplK2          string // the template as known finding K2 returns it: zero subs/data/payload read back as -1
 			zeroLimit       bool
 		}
 		wants := map[string]*want{}
 		nk := c.R.Intn(7)
+		if i == 0 {
+			nk = 1 // fixed witness of known finding K2, always first: one scope whose template limits subscriptions to 0
+		}
 		for k := 0; k < nk; k++ {
 			key := pubOf(kpN('A', 10+c.R.Intn(9)))
-			switch c.R.Intn(3) {
+			pick := c.R.Intn(3)
+			if i == 0 {
+				pick = 1
+			}
+			switch pick {
 			case 0:
 				ac.SigningKeys.Add(key)
 				wants[key] = nil
@@ -65,7 +73,17 @@ func runC14(c *Ctx) {
 				us := jwt.NewUserScope()
 				us.Key, us.Role, us.Description = key, c.R.Pick(strAlphabet), c.R.Pick(strAlphabet)
 				genTemplate(c, &us.Template)
-				w := &want{key, us.Role, us.Description, dumpNorm(&us.Template), us.Template.Subs == 0 || us.Template.Data == 0 || us.Template.Payload == 0}
+				if i == 0 {
+					us.Template = jwt.UserPermissionLimits{}
+					us.Template.Subs, us.Template.Data, us.Template.Payload = 0, -1, -1
+				}
+				k2 := us.Template
+				for _, f := range []*int64{&k2.Subs, &k2.Data, &k2.Payload} {
+					if *f == 0 {
+						*f = -1
+					}
+				}
+				w := &want{key, us.Role, us.Description, dumpNorm(&us.Template), dumpNorm(&k2), us.Template.Subs == 0 || us.Template.Data == 0 || us.Template.Payload == 0}
 				wants[key] = w
 				if c.R.Bool() {
 					ac.SigningKeys.AddScopedSigner(us)
@@ -111,7 +129,7 @@ func runC14(c *Ctx) {
 					c.Violate("scope-roundtrip", "scope key/role/description changed", rp)
 				}
 				if got != w.tmpl {
-					if w.zeroLimit {
+					if w.zeroLimit && got == w.tmplK2 {
 						// K2: a zero subs/data/payload limit in a template is dropped by omitempty and decodes as -1
 						c.Violate("scope-template-zero-limit", "a scope template with a zero NATS limit decodes with that limit = -1", rp)
 					} else {
